@@ -29,7 +29,8 @@ Hypothesis Hch : forall n, h_height (ch n) = n.
 (** From the state after ANY honest history (store tail..tail+k initially),
     running the loop against ANY honest getter [g] (every request answered by a
     non-empty prefix of the requested range) reaches quiescence within the
-    stated number of steps, never panics, and - unless the loop was idle
+    stated number of steps, never panics, issues at most (target - Store head)
+    range requests, and - unless the loop was idle
     without trigger after a failed attempt, where it waits for the next head
     (C07_next_head_resumes) - ends with: nothing pending, Store head = cache =
     the newest verified head, State without error and finished, SyncWait
@@ -43,7 +44,9 @@ Theorem C07_reaches_target_partial : forall (tail : N) (k : nat) (es : list hev)
   let H := newest_height c in
   exists n, (n <= pot H c)%nat /\
     let c' := l_iter g n c in
-    quiescent c' /\ c_loop c' <> LPanic /\ (waiting_after_error c \/ reached ch H c').
+    quiescent c' /\ c_loop c' <> LPanic /\
+    (length (c_reqs c') <= length (c_reqs c) + N.to_nat (H - rs_head (c_store c)))%nat /\
+    (waiting_after_error c \/ reached ch H c').
 Proof. exact (reaches_target drift tv ch Hch). Qed.
 
 (** the same with gaps in the pending set (several non-adjacent runs learned
